@@ -107,11 +107,25 @@ let handle_variant (v : variant) (x : Sexp.t) : string =
      | _ -> ());
     let solver_note =
       Printf.sprintf "z3=%s cvc5=%s" (if z3 = "ok" then "ok" else "REJECT") (if cvc5 = "ok" then "ok" else if as_const_limit cvc5 then "as-const-limit" else "REJECT") in
+    (* the theorems predict acceptance inside their domain: a failure there contradicts the model/proofs *)
+    (match !fail with
+     | Some (k, d) when sys_wf sy && names_ok en && (entry <> 0 || init_reads_ok_b en) && not (known_class_b en (n_of_int entry))
+                        && (String.length k >= 3 && (String.sub k 0 3 = "dup" || String.sub k 0 3 = "use")) ->
+         fail := Some ("theorem-domain-but-" ^ k, d)
+     | _ -> ());
     match !fail with
     | Some (k, d) -> Registry.result ~id ~status:"fail" ~key:k ~detail:(d ^ "; " ^ solver_note ^ (if !diffs <> [] then "; also differs from model: " ^ String.concat " | " !diffs else "")) ()
     | None ->
         if !diffs <> [] then Registry.result ~id ~status:"diff" ~key:"model-differs" ~detail:(String.concat " | " (List.rev !diffs)) ()
-        else Registry.result ~id ~status:"ok" ~key:(Printf.sprintf "entry%s" (if entry = 0 then "0" else ">0"))
+        else
+          (* where the case lies with respect to the hypotheses of the theorems of Props/C04.v *)
+          let domain =
+            if not (sys_wf sy) then "outside:sys_wf"
+            else if not (names_ok en) then "outside:names_ok"
+            else if entry = 0 && not (init_reads_ok_b en) then "outside:init_reads_ok(but-accepted)"
+            else if known_class_b en (n_of_int entry) then "known-class(but-accepted)"
+            else "in-theorem-domain" in
+          Registry.result ~id ~status:"ok" ~key:(Printf.sprintf "entry%s:%s" (if entry = 0 then "0" else ">0") domain)
             ~detail:(Printf.sprintf "execs=%d skipped=%d exact-order=%b %s" !n_exec !n_skipped exact_order solver_note) ()
   end
 
